@@ -197,45 +197,53 @@ class _Quadrature(torch.autograd.Function):
                 grad_params = [None for _ in range(ctx.param_sep.nnontensors())]
                 return (None, grad_xl, grad_xu, None, None, None, None, None, *grad_params)
 
-            def new_fcn(x, *grad_y_params):
-                grad_ys = grad_y_params[0]
-                # not setting objparams and params because the params and objparams
-                # are still the same objects as the objects outside
-                with torch.enable_grad():
-                    f = fcn(x, *params)
-                if f.requires_grad:
-                    # f has as many elements as grad_ys, but its shape follows the shape
-                    # of x, which can differ between xl, xu and the quadrature points
-                    # (e.g. a 0-dim tensor or a number and a 1-element 1D tensor)
-                    dfdts = torch.autograd.grad(f, tensor_params,
-                                                grad_outputs=grad_ys.reshape(f.shape),
-                                                retain_graph=True,
-                                                create_graph=torch.is_grad_enabled(),
-                                                allow_unused=True)
-                else:
-                    # the integrand does not depend on any of the parameters
-                    dfdts = [None for _ in tensor_params]
-                # the parameters that do not influence the integrand get zero gradient
-                dfdts = tuple(torch.zeros_like(p) if dfdt is None else dfdt
-                              for (dfdt, p) in zip(dfdts, tensor_params))
-                # a tensor that is supplied in several places (e.g. twice in params, or
-                # in params and as a parameter of the object) gets its (total) derivative once
-                seen_ids = set()
-                dfdts_once = []
-                for (dfdt, p) in zip(dfdts, tensor_params):
-                    dfdts_once.append(torch.zeros_like(dfdt) if id(p) in seen_ids else dfdt)
-                    seen_ids.add(id(p))
-                return tuple(dfdts_once)
+        # (the state change is enabled again from here: the integrand below is
+        # evaluated with copies of the parameters put into the function's object)
+        param_sep = ctx.param_sep
 
-            # reconstruct grad_params
-            # listing tensor_params in the params of quad to make sure it gets
-            # the gradient calculated
-            dydts = quad(new_fcn, xl, xu, params=(grad_ys, *tensor_params),
-                         bck_options=ctx.bck_config, **ctx.bck_config)
-            dydns = [None for _ in range(ctx.param_sep.nnontensors())]
-            grad_params = ctx.param_sep.reconstruct_params(dydts, dydns)
+        def new_fcn(x, *grad_y_params):
+            grad_ys = grad_y_params[0]
+            # every tensor parameter gets its own copy, so that the derivative
+            # w.r.t. each of them is the partial one: the dependence of a
+            # parameter (or of grad_ys) on another one through the autograd
+            # history, and a tensor that is given in several places, are
+            # accounted for by autograd outside (and only there)
+            if torch.is_grad_enabled():
+                tensor_params_copy = [p.clone().requires_grad_() for p in grad_y_params[1:]]
+            else:
+                tensor_params_copy = [p.detach().requires_grad_() for p in grad_y_params[1:]]
+            allparams_copy = param_sep.reconstruct_params(tensor_params_copy)
+            params_copy = allparams_copy[:nparams]
+            objparams_copy = allparams_copy[nparams:]
+            with torch.enable_grad():
+                with fcn.useobjparams(objparams_copy):
+                    f = fcn(x, *params_copy)
+            if f.requires_grad:
+                # f has as many elements as grad_ys, but its shape follows the shape
+                # of x, which can differ between xl, xu and the quadrature points
+                # (e.g. a 0-dim tensor or a number and a 1-element 1D tensor)
+                dfdts = torch.autograd.grad(f, tensor_params_copy,
+                                            grad_outputs=grad_ys.reshape(f.shape),
+                                            retain_graph=True,
+                                            create_graph=torch.is_grad_enabled(),
+                                            allow_unused=True)
+            else:
+                # the integrand does not depend on any of the parameters
+                dfdts = [None for _ in tensor_params_copy]
+            # the parameters that do not influence the integrand get zero gradient
+            dfdts = tuple(torch.zeros_like(p) if dfdt is None else dfdt
+                          for (dfdt, p) in zip(dfdts, tensor_params_copy))
+            return dfdts
 
-            return (None, grad_xl, grad_xu, None, None, None, None, None, *grad_params)
+        # reconstruct grad_params
+        # listing tensor_params in the params of quad to make sure it gets
+        # the gradient calculated
+        dydts = quad(new_fcn, xl, xu, params=(grad_ys, *tensor_params),
+                     bck_options=ctx.bck_config, **ctx.bck_config)
+        dydns = [None for _ in range(ctx.param_sep.nnontensors())]
+        grad_params = ctx.param_sep.reconstruct_params(dydts, dydns)
+
+        return (None, grad_xl, grad_xu, None, None, None, None, None, *grad_params)
 
 def _isinf(x):
     return torch.any(torch.isinf(x))
